@@ -35,7 +35,7 @@ partial def parsePFields : List Char → Option (PFields × List Char)
 end
 
 /-- `convert.run <src> <tgt> <val>` →
-    `ok <conforms 0/1> | <mirror: convertRow src tgt (shred src v)> | <spec: shred tgt (project v)> | <project v>` -/
+    `ok <conforms 0/1> <subN 0/1> <addN 0/1> <wf 0/1> | <mirror: convertRow src tgt (shred src v)> | <spec: shred tgt (project v)> | <project v>` -/
 def handle (toks : List String) : Option String :=
   match toks with
   | ["convert.run", ss, ts, vs] => some <|
@@ -45,7 +45,8 @@ def handle (toks : List String) : Option String :=
       let pv := projN s t v
       let out := convertRow s t cols
       let exp := shred t pv
-      s!"ok {if confN (eraseN s) v then 1 else 0} | {Driver.Ops.C03.showCols out} | {Driver.Ops.C03.showCols exp} | {Driver.Ops.C03.showVal pv}"
+      let b (x : Bool) : String := if x then "1" else "0"
+      s!"ok {b (confN (eraseN s) v)} {b (subN s t)} {b (addN 0 s t)} {b (wfN (eraseN s))} | {Driver.Ops.C03.showCols out} | {Driver.Ops.C03.showCols exp} | {Driver.Ops.C03.showVal pv}"
     | _, _, _ => "bad-op"
   | _ => none
 
